@@ -482,6 +482,39 @@ def const_value(k):
     return None
 
 
+def _locals_read(rv):
+    """locals an rvalue reads (operands and places, any projection)"""
+    out = []
+    def op(o):
+        if isinstance(o, list) and o and o[0] in ("c", "m") and isinstance(o[1], list):
+            out.append(o[1][0])
+    k = rv[0]
+    if k == "use":
+        op(rv[1])
+    elif k in ("ref", "rawptr"):
+        pl = rv[2] if k == "ref" else rv[1]
+        if isinstance(pl, list) and pl and isinstance(pl[0], int):
+            out.append(pl[0])
+    elif k == "cast":
+        op(rv[2])
+    elif k == "bin":
+        op(rv[2]); op(rv[3])
+    elif k == "un":
+        op(rv[2])
+    elif k == "agg":
+        for o in rv[2]:
+            op(o)
+    elif k == "disc":
+        if isinstance(rv[1], list) and rv[1] and isinstance(rv[1][0], int):
+            out.append(rv[1][0])
+    elif k == "repeat":
+        op(rv[1])
+    else:
+        for o in rv[1:]:
+            op(o)
+    return out
+
+
 class Path:
     """Resolved access path: root local + sequence of path elements ('f', adt, field)/('d', variant)/('*')."""
     __slots__ = ("root", "elems", "via_call")
@@ -1538,6 +1571,28 @@ class Body:
         fl = self._flag_locals()
         if not fl:
             return env
+        # most blocks assign no flag and call nothing that overwrites one: decided once per block
+        touch = self.__dict__.setdefault("_env_touch", {})
+        if b not in touch:
+            locs = {s[1][0] for s in self.stmts(b) if s[0] == "A" and not s[1][1]}
+            t0 = self.term(b)
+            if t0["k"] == "call" and t0.get("dest") is not None and not t0["dest"][1]:
+                locs.add(t0["dest"][0])
+            touch[b] = locs
+        if not env and not touch[b]:
+            return env
+        lv = self._flag_live()
+        if not touch[b]:
+            if all(k[0] == "D" or b in lv.get(k[0], ()) for k, _ in env):
+                return env
+            return tuple((k, v) for k, v in env if k[0] == "D" or b in lv.get(k[0], ()))
+        fll = self.__dict__.get("_flag_local_set")
+        if fll is None:
+            fll = self.__dict__["_flag_local_set"] = {k[0] for k in fl}
+        if not any(k[0] in touch[b] for k, _ in env) and not (touch[b] & fll):
+            if all(k[0] == "D" or b in lv.get(k[0], ()) for k, _ in env):
+                return env
+            return tuple((k, v) for k, v in env if k[0] == "D" or b in lv.get(k[0], ()))
         d = dict(env)
         for s in self.stmts(b):
             if s[0] != "A" or s[1][1]:
@@ -1572,7 +1627,47 @@ class Body:
         if t["k"] == "call" and not t["dest"][1]:
             for k in [k for k in d if k[0] == t["dest"][0] and k[0] != "D"]:
                 d.pop(k, None)
-        return tuple(sorted(d.items(), key=repr))
+        lv = self._flag_live()
+        return tuple(sorted(((k, v) for k, v in d.items() if k[0] == "D" or b in lv.get(k[0], ())), key=repr))
+
+    def _flag_live(self):
+        """flag key -> blocks from which a *use* of the flag is reachable (a switch on the local, or a statement reading the local). What is known
+        about a flag that nobody will read again only multiplies the states of a path search."""
+        lv = self.__dict__.get("_flag_live_map")
+        if lv is None:
+            fl = self._flag_locals()
+            uses = defaultdict(set)
+            locs = {k[0] for k in fl}
+            for b_ in range(self.n):
+                t_ = self.term(b_)
+                if t_["k"] == "switch":
+                    p_ = op_place(t_["discr"])
+                    if p_ is not None and p_[0] in locs:
+                        uses[p_[0]].add(b_)
+                for s_ in self.stmts(b_):
+                    if s_[0] != "A":
+                        continue
+                    for l_ in _locals_read(s_[2]):
+                        if l_ in locs:
+                            uses[l_].add(b_)
+                if t_["k"] == "call":
+                    for a_ in t_.get("args", ()):
+                        p_ = op_place(a_)
+                        if p_ is not None and p_[0] in locs:
+                            uses[p_[0]].add(b_)
+            lv = {}
+            for l_, us in uses.items():
+                seen = set(us)
+                st = list(us)
+                while st:
+                    x = st.pop()
+                    for pr in self.pred[x]:
+                        if pr not in seen:
+                            seen.add(pr)
+                            st.append(pr)
+                lv[l_] = seen
+            self.__dict__["_flag_live_map"] = lv
+        return lv
 
     def _feasible_succ(self, b, env):
         t = self.term(b)
@@ -1975,7 +2070,11 @@ class Body:
             if st not in parent:
                 parent[st] = None
                 dq.append(st)
+        budget = 3000000
         while dq:
+            budget -= 1
+            if budget <= 0:
+                break
             st = dq.popleft()
             b, env = st
             if b in targets and (parent[st] is not None or b in start_blocks):
@@ -1994,6 +2093,26 @@ class Body:
                     continue
                 parent[ns] = st
                 dq.append(ns)
+        if budget <= 0:
+            # too many combinations of flags: decide without them (every CFG path counts - an over-approximation that can only add a report)
+            seen_b, st_ = set(), [s for s in start_blocks if s not in through]
+            par = {s: None for s in st_}
+            while st_:
+                x = st_.pop()
+                if x in seen_b:
+                    continue
+                seen_b.add(x)
+                if x in targets and (par[x] is not None or x in start_blocks):
+                    path = []
+                    while x is not None:
+                        path.append(x)
+                        x = par[x]
+                    return False, list(reversed(path))
+                for s in self.succ[x]:
+                    if s in through or (x, s) in discharge or self.is_cleanup(s) or s in seen_b:
+                        continue
+                    par.setdefault(s, x)
+                    st_.append(s)
         return True, None
 
     def bool_edges(self, call):
